@@ -23,7 +23,7 @@ LEVEL_NOTE = ("Trusted: SimNet's model of per-channel FIFO delivery (vf/simnet.p
 RULE = ("case = DCOP description + two schedules + algorithm seed; non-trivial = >=1 constraint of arity>=2 and "
         "optimum != worst cost; distinct by sha1(case) (DCOP and schedules)")
 ASSUMPTIONS = ["per-channel FIFO is the delivery guarantee of pyDCOP's transports"]
-BUDGET = {"quick": {"workers": 6, "examples": 150, "seconds": 40},
+BUDGET = {"quick": {"workers": 8, "examples": 500, "seconds": 40},
           "thorough": {"workers": 16, "examples": 2500, "seconds": 600}}
 
 
